@@ -211,7 +211,10 @@ def _malformed_case(ctx: Ctx, base, eps, mode: str, cls: str, reqs, todo) -> Non
     ctx.count("defect:" + cls + (":rejected" if st != "ok" else ":accepted"))
     if st != "ok" and n != "Assert":
         ctx.spec_fail("operation-raised", inp, {"exception-class": n, "note": "the reader rejects with AssertionError only"}, size)
-    if cls in nc.LISTED and st == "ok":
+    if cls == "hard-overlap" and st == "ok" and not nc.overlap_above_tolerance(bad, eps):
+        # small-unit designs: the overlap injected is below the (non scale-free) area tolerance in force: not a defect
+        ctx.count("defect:hard-overlap:below-the-tolerance-in-force")
+    elif cls in nc.LISTED and st == "ok":
         ctx.spec_fail("reject:" + cls, inp, {"defect": cls, "loaded": impl_line[:500]}, size)
     if cls in nc.MUST_LOAD and st != "ok":
         ctx.spec_fail("accept:" + cls, inp, {"variation": cls, "verdict": "rejected",
@@ -308,6 +311,8 @@ def run(ctx: Ctx) -> None:
         mode = "Q" if i % 2 == 0 else "F"
         doc = nc.gen_doc(ctx.rng, mode)
         eps = nc.gen_eps(ctx.rng, mode)
+        doc, eps, fam = nc.maybe_rescale(ctx.rng, doc, eps, mode)
+        ctx.count(fam)
         if valid_case(ctx, doc, eps, mode, reqs, todo):
             bases.append((doc, eps, mode))
     classes = nc.LISTED * 3 + nc.OTHER + ["hard-overlap"] * 3 + nc.MUST_LOAD * 4
@@ -362,7 +367,9 @@ def replay(ctx: Ctx, body: dict) -> None:
     reqs.append(f"{mode} load {nc.eps_tokens(eps, mode)} {nc.enc_tree(doc, mode)}")
     todo.append(("load", inp, impl_line, nc.doc_size(doc), nc.wl_scale(n)))
     cls = inp.get("defect")
-    if cls in nc.LISTED and st == "ok":
+    if cls == "hard-overlap" and st == "ok" and not nc.overlap_above_tolerance(doc, eps):
+        pass
+    elif cls in nc.LISTED and st == "ok":
         ctx.spec_fail("reject:" + cls, inp, {"defect": cls, "loaded": impl_line[:500]}, nc.doc_size(doc))
     if st == "ok" and cls is None:
         f = spec_derived(doc, eps, mode)
